@@ -205,9 +205,28 @@ def b_doctype(n, pub, sysid):
     return K.mk_obj("XmlDocumentTypeDeclaration", K.INFO, local_name=nm, prefix=NONE, public_identifier=opt_s(p), system_identifier=opt_s(s), children=SVec()), And(*cons), "doctype_decl", None
 
 
+def b_xmldecl(enc, sd):
+    """the XML declaration a document prints: version 1.<digit>, encoding absent or an EncName of `enc` characters,
+    standalone absent / yes / no"""
+    d, c = S("v", 1)
+    cons = [c, sym.cin_ranges(d[0].c, [(0x30, 0x39)])]
+    version = SStr(list(kernel.from_pystr("1.")) + list(d))
+    e = SStr()
+    if enc:
+        e, ce = S("e", enc)
+        cons += [ce, lang("enc_name", e)]
+    standalone = NONE if sd is None else Some(sd)
+    doc = K.mk_obj("XmlDocument", K.INFO, children=SVec(), base_uri=SStr(), encoding=SStr(e), standalone=standalone, version=Some(version),
+                   all_declarations_processed=True, context=NONE)
+    return doc, And(*cons), "xml_decl", ("xmldecl", enc > 0, sd)
+
+
 def cases(tier):
     n = 2 if tier == "quick" else 3
     out = []
+    for enc in (0, 1, 2):
+        for sd in (None, True, False):
+            out.append(("xmldecl", b_xmldecl, (enc, sd)))
     for k in range(0, n + 2):
         out.append(("comment", b_comment, (k,)))
         out.append(("cdata", b_cdata, (k,)))
@@ -291,6 +310,28 @@ def work(job):
                 act = active.activation(run, node, acc)
                 used = Or(*[a for (nid, q), (n, a) in act.items() if nid == inner.id])
                 acc = And(acc, used if mode[1] else Not(used))
+            if isinstance(mode, tuple) and mode[0] == "xmldecl":
+                # encoding and standalone come back exactly as the item has them: the optional parts are used iff present,
+                # and the 'yes' / 'no' alternative that is taken is the item's value
+                _, has_enc, sd = mode
+                act = active.activation(run, node, acc)
+                enc_refs = active.find_nodes(g, node, lambda n: n.kind == "ref" and n.arg[1] == "encoding_decl")
+                sd_refs = active.find_nodes(g, node, lambda n: n.kind == "ref" and n.arg[1] == "sd_decl")
+                if len(enc_refs) != 1 or len(sd_refs) != 1:
+                    raise nomsem.Unsupported("xml_decl production shape")
+                enc_used = Or(*[a for (nid, q), (n, a) in act.items() if nid == enc_refs[0].id and n is enc_refs[0]] or [False])
+                sd_used = Or(*[a for (nid, q), (n, a) in act.items() if nid == sd_refs[0].id] or [False])
+                enc_used = Or(*[And(a, run.ends(n, q).ok()) for (nid, q), (n, a) in act.items() if nid == enc_refs[0].id] or [False])
+                sd_used = Or(*[And(a, run.ends(n, q).ok()) for (nid, q), (n, a) in act.items() if nid == sd_refs[0].id] or [False])
+                conds = [acc, enc_used if has_enc else Not(enc_used), sd_used if sd is not None else Not(sd_used)]
+                if sd is not None:
+                    sdp = g.production("sd_decl", P)
+                    yes = active.find_nodes(g, sdp, lambda n: n.kind == "tag" and n.arg == "yes")
+                    no = active.find_nodes(g, sdp, lambda n: n.kind == "tag" and n.arg == "no")
+                    yes_used = Or(*[a for (nid, q), (n, a) in act.items() if any(nid == y.id for y in yes)] or [False])
+                    no_used = Or(*[a for (nid, q), (n, a) in act.items() if any(nid == y.id for y in no)] or [False])
+                    conds += [yes_used if sd else Not(yes_used), no_used if not sd else Not(no_used)]
+                acc = And(*conds)
             if mode == "text-only":
                 body = g.body_of(node)
                 seq = body
@@ -307,6 +348,12 @@ def work(job):
             out["status"] = "sat"
             out["witness"] = {"item": name, "sizes": str(sizes), "printed": K.model_str(mdl, p["value"]) if p["kind"] != "panic" else None,
                               "panic": p.get("msg"), "production": prod}
+            if name == "xmldecl":
+                ver = K.model_str(mdl, probe.fields["version"].fields[0])
+                enc = K.model_str(mdl, probe.fields["encoding"])
+                sd = probe.fields["standalone"]
+                out["witness"]["source"] = "<?xml version='%s'%s%s?>" % (ver, (" encoding='%s'" % enc) if enc else "",
+                                                                          "" if sd.variant == "None" else (" standalone='%s'" % ("yes" if sd.fields[0] is True else "no")))
             if name == "pi":
                 tgt = K.model_str(mdl, probe.fields["target"])
                 cnt = probe.fields["content"]
@@ -326,7 +373,7 @@ def work(job):
 
 
 # how a printed item is embedded in a document for replay, and what must come back
-EMBED = {"comment": "<r>%s</r>", "cdata": "<r>%s</r>", "text": "<r>%s</r>", "pi": "<r>%s</r>", "charref10": "<r>%s</r>", "charref16": "<r>%s</r>",
+EMBED = {"xmldecl": "%s<r/>", "comment": "<r>%s</r>", "cdata": "<r>%s</r>", "text": "<r>%s</r>", "pi": "<r>%s</r>", "charref10": "<r>%s</r>", "charref16": "<r>%s</r>",
          "entref": None, "notation": "<!DOCTYPE r [%s]><r/>", "doctype": "%s<r/>", "entity": "<!DOCTYPE r [%s]><r/>", "entity-ext": "<!DOCTYPE r [%s]><r/>",
          "attribute": "<r %s/>"}
 
